@@ -2,15 +2,18 @@
 
 // prop: C06
 // tier: quick
-// name: RectClipPaths64.vertices-in-rect RectClipPaths64.fast-paths RectClipPaths64.winding
+// name: RectClipPaths64.vertices-in-rect RectClipPaths64.fast-paths RectClipPaths64.winding RectClipPaths64.winding-larger RectClipPaths64.enclosing-winding
 // what: every output vertex of RectClipPaths64 lies within the rectangle (at most 1 unit outside); at every sample point more than 2 units from the rectangle boundary and from every input edge the output winding number equals the input winding number inside the rectangle and is zero outside; paths inside are returned unchanged, paths outside vanish
-// bound: every polygon of 3..4 vertices (quick) / 3..5 (thorough) over the 5x5 grid {0,8,..,32}^2 against the rectangles [8,24]^2, [4,20]x[12,28] and [0,32]x[8,16]; sample points on the lattice 4+8k in [-4,36]^2; exhaustive, exact integer winding oracle
+// bound: every polygon of 3..4 vertices (quick) / 3..5 (thorough) over the 5x5 grid {0,8,..,32}^2 against the rectangles [8,24]^2, [4,20]x[12,28] and [0,32]x[8,16]; sample points on the lattice 4+8k in [-4,36]^2; exhaustive, exact integer winding oracle; plus (winding-larger / enclosing-winding, not exhaustive) 100000 (quick) / 2000000 (thorough) pseudo-random polygons of 5..10 vertices on the 11x11 grid {0,4,..,40}^2 against four rectangles, seeded by VERIF_SEED, the cases whose path never meets the rectangle boundary reported under enclosing-winding, together with 24 directed spirals that wind 1, 2 or 3 times around each rectangle
+// sampled: RectClipPaths64.winding-larger RectClipPaths64.enclosing-winding
 
 package go_clipper2
 
 import (
 	"fmt"
+	"math/rand"
 	"os"
+	"strconv"
 	"testing"
 )
 
@@ -163,5 +166,135 @@ func TestVerifBoundedRectClip(t *testing.T) {
 	rec(Path64{})
 	for _, w := range []string{"vertices-in-rect", "fast-paths", "winding"} {
 		fmt.Printf("VERIF-BOUNDED RectClipPaths64.%s cases=%d failures=%d\n", w, cases, fails[w])
+	}
+}
+
+func vbOrient(a, b, c Point64) int64 {
+	v := (b.X-a.X)*(c.Y-a.Y) - (b.Y-a.Y)*(c.X-a.X)
+	switch {
+	case v > 0:
+		return 1
+	case v < 0:
+		return -1
+	}
+	return 0
+}
+
+func vbOnSeg(a, b, p Point64) bool {
+	return vbOrient(a, b, p) == 0 && min(a.X, b.X) <= p.X && p.X <= max(a.X, b.X) && min(a.Y, b.Y) <= p.Y && p.Y <= max(a.Y, b.Y)
+}
+
+// closed segments ab and cd share a point
+func vbSegsMeet(a, b, c, d Point64) bool {
+	o1, o2, o3, o4 := vbOrient(a, b, c), vbOrient(a, b, d), vbOrient(c, d, a), vbOrient(c, d, b)
+	if o1 != o2 && o3 != o4 && o1*o2 <= 0 && o3*o4 <= 0 && (o1 != 0 || o2 != 0 || o3 != 0 || o4 != 0) {
+		if o1*o2 < 0 && o3*o4 < 0 {
+			return true
+		}
+	}
+	return vbOnSeg(a, b, c) || vbOnSeg(a, b, d) || vbOnSeg(c, d, a) || vbOnSeg(c, d, b)
+}
+
+func TestVerifBoundedRectClipLarger(t *testing.T) {
+	n := 100000
+	if os.Getenv("VERIF_TIER") == "thorough" {
+		n = 2000000
+	}
+	seed, _ := strconv.Atoi(os.Getenv("VERIF_SEED"))
+	rng := rand.New(rand.NewSource(int64(seed) + 7))
+	rects := []Rect64{{8, 8, 24, 24}, {4, 12, 20, 28}, {0, 8, 32, 16}, {12, 4, 20, 36}}
+	var samples []Point64
+	for x := int64(-2); x <= 42; x += 4 {
+		for y := int64(-2); y <= 42; y += 4 {
+			samples = append(samples, Point64{x, y})
+		}
+	}
+	cases := map[string]int{}
+	fails := map[string]int{}
+	// directed family: spirals that wind 1, 2 or 3 times around the rectangle without meeting it
+	var directed []Path64
+	var directedRect []Rect64
+	for _, r := range rects {
+		for turns := 1; turns <= 3; turns++ {
+			for _, rev := range []bool{false, true} {
+				var p Path64
+				for tt := 0; tt < turns; tt++ {
+					d := int64(4 * (tt + 1))
+					p = append(p, Point64{r.left - d, r.top - d}, Point64{r.right + d, r.top - d}, Point64{r.right + d, r.bottom + d}, Point64{r.left - d, r.bottom + d})
+				}
+				if rev {
+					p = ReversePath(p)
+				}
+				directed = append(directed, p)
+				directedRect = append(directedRect, r)
+			}
+		}
+	}
+	for it := 0; it < n+len(directed); it++ {
+		var p Path64
+		var r Rect64
+		if it < len(directed) {
+			p, r = directed[it], directedRect[it]
+		} else {
+			p = make(Path64, 5+rng.Intn(6))
+			for i := range p {
+				p[i] = Point64{int64(rng.Intn(11)) * 4, int64(rng.Intn(11)) * 4}
+			}
+			r = rects[rng.Intn(len(rects))]
+		}
+		k := len(p)
+		rp := r.AsPath()
+		meets := false
+		for i := range p {
+			for j := range rp {
+				if vbSegsMeet(p[i], p[(i+1)%k], rp[j], rp[(j+1)%4]) {
+					meets = true
+				}
+			}
+		}
+		which := "winding-larger"
+		if !meets {
+			which = "enclosing-winding"
+		}
+		cases[which]++
+		out := RectClipPaths64(r, Paths64{append(Path64{}, p...)})
+		bad := ""
+		for _, s := range samples {
+			far := true
+			for i := range p {
+				if !vbFarFromSeg(s, p[i], p[(i+1)%k]) {
+					far = false
+				}
+			}
+			for i := range rp {
+				if !vbFarFromSeg(s, rp[i], rp[(i+1)%4]) {
+					far = false
+				}
+			}
+			if !far {
+				continue
+			}
+			want := 0
+			if s.X > r.left && s.X < r.right && s.Y > r.top && s.Y < r.bottom {
+				want = vbWinding(s, p)
+			}
+			got := 0
+			for _, q := range out {
+				got += vbWinding(s, q)
+			}
+			if got != want {
+				bad = fmt.Sprintf("winding at %v is %d, want %d", s, got, want)
+				break
+			}
+		}
+		if bad != "" {
+			fails[which]++
+			if fails[which] <= 3 {
+				fmt.Printf("VERIF-BOUNDED-FAIL RectClipPaths64.%s rect %v path %v -> %v: %s\n", which, r, p, out, bad)
+			}
+		}
+	}
+	for _, w := range []string{"winding-larger", "enclosing-winding"} {
+		fmt.Printf("VERIF-BOUNDED RectClipPaths64.%s cases=%d failures=%d\n", w, cases[w], fails[w])
 	}
 }
